@@ -207,6 +207,22 @@ def default_inputs(run, rng, focus):
                      ('<r><a i="" j="1">t</a><a i="x" j="1">t</a></r>', '<r><a i="x" j="1">t</a><a j="1">t</a></r>')):
             for o in ({'uniqueattrs': ['i']}, {'uniqueattrs': ['i'], 'fast_match': True}, {'uniqueattrs': [('a', 'i')], 'best_match': True}, {}):
                 inputs.append((a, b, o))
+    # equal documents whose attributes are WRITTEN in another order, next to twins in the original order; elements with
+    # 6..15 children under the highest thresholds (a child ratio summed up in floating point is not exactly 1.0)
+    if focus in ("C03", "C01", "C07"):
+        for a, b in ATTR_ORDER_STREAM:
+            for o in ({'ratio_mode': 'accurate'}, {'ratio_mode': 'accurate', 'fast_match': True}, {'ratio_mode': 'fast', 'best_match': True}, {}):
+                inputs.append((a, b, o))
+        for n in (6, 7, 10, 13, 15):
+            doc = "<r><k/><box>%s</box><box2>%s</box2></r>" % ("".join("<c%d>t%d</c%d>" % (i, i, i) for i in range(n)), "<z/>" * n)
+            for o in ({'F': 1.0}, {'F': 1.0, 'fast_match': True}, {'F': 1.0, 'best_match': True}, {'F': 1.0, 'ratio_mode': 'accurate'}):
+                inputs.append((doc, doc, o))
+    # ignored / unique attribute names in namespaces whose URI itself contains "xml:" or looks like a prefix form
+    if focus in ("C13", "C07"):
+        for a, b in XMLURI_STREAM:
+            inputs.append((a, b, {'ignored_attrs': ['{urn:ietf:params:xml:ns:inv}rev', 'stamp']}))
+            inputs.append((a, b, {'ignored_attrs': ['stamp', '{urn:ietf:params:xml:ns:inv}rev'], 'fast_match': True}))
+            inputs.append((a, b, {'uniqueattrs': ['{urn:ietf:params:xml:ns:inv}name']}))
     # labelled stream of inputs that fall under recorded (open) known findings
     if focus in ("C01", "C04", "C05"):
         for a, b in KNOWN_STREAM:
@@ -299,6 +315,18 @@ NS_SEQUENCE = [
     ('<r xmlns:p="urn:u2"><p:k>x</p:k></r>', '<r xmlns:p="urn:u2"><p:k>y</p:k><p:k2 c="3"/></r>'),
     ('<r xmlns:p="urn:u1"><p:k>x</p:k></r>', '<r xmlns:p="urn:u1"><p:k>y</p:k><p:k2 c="3"/></r>'),
 ]
+ATTR_ORDER_STREAM = [
+    ('<r><a x="1" y="2">t</a><a y="2" x="1">t</a></r>', '<r><a y="2" x="1">t</a><a x="1" y="2">t</a></r>'),
+    ('<r><a x="1" y="2" z="3">t</a><b/></r>', '<r><a z="3" y="2" x="1">t</a><b/></r>'),
+    ('<r><s><a p="q" x="1" y="2">t</a><a y="2" x="1" p="q">t</a></s><a x="1" y="2" p="q">t</a></r>',
+     '<r><s><a y="2" p="q" x="1">t</a><a x="1" p="q" y="2">t</a></s><a p="q" y="2" x="1">t</a></r>'),
+]
+XMLURI_STREAM = [
+    ('<inv xmlns:i="urn:ietf:params:xml:ns:inv"><item i:name="a" i:rev="1" stamp="x">t</item><item i:name="b" i:rev="1">u</item></inv>',
+     '<inv xmlns:i="urn:ietf:params:xml:ns:inv"><item i:name="b" i:rev="2">u</item><item i:name="a" i:rev="3" stamp="y">t</item></inv>'),
+    ('<inv xmlns:i="urn:ietf:params:xml:ns:inv"><item i:rev="1">t</item></inv>',
+     '<inv xmlns:i="urn:ietf:params:xml:ns:inv"><item i:rev="2" stamp="z">t</item></inv>'),
+]
 COMMENT_SHIFT = [
     ('<doc><!--c--><a/><b/></doc>', '<doc><a/><!--c--><b/></doc>'),
     ('<doc><a/><b/><!--c--></doc>', '<doc><!--c--><a/><b/></doc>'),
@@ -314,6 +342,12 @@ REBOUND_STREAM = [
     ('<r><k/></r>', '<r xmlns:p="u" xmlns:q="u"><k/><q:n a="1"><q:m>t</q:m></q:n></r>'),
     ('<r><k/></r>', '<r xmlns:q="u" xmlns:p="u"><k/><p:n a="1"><p:m>t</p:m></p:n><q:z>w</q:z></r>'),
     ('<r xmlns:o="urn:o"><o:k/></r>', '<r xmlns:o="urn:o" xmlns:a="u" xmlns:b="u"><o:k/><b:n><a:m>t</a:m></b:n></r>'),
+    # namespaces lxml itself knows a default prefix for (XHTML html:, XML Schema xs:, ...) under ANOTHER prefix, on the right
+    # root only; a new namespace used by the document element alone (its tag / an attribute of it)
+    ('<doc><sec><k/></sec></doc>', '<doc xmlns:h="http://www.w3.org/1999/xhtml"><sec><k/><h:p>text<h:b>x</h:b></h:p></sec></doc>'),
+    ('<doc><k/></doc>', '<doc xmlns:xsd="http://www.w3.org/2001/XMLSchema"><k/><xsd:element name="a"><xsd:annotation/></xsd:element></doc>'),
+    ('<report><item>one</item></report>', '<r:report xmlns:r="urn:example:report"><item>one</item><item>two</item></r:report>'),
+    ('<report><item>one</item></report>', '<report xmlns:m="urn:example:meta" m:rev="2"><item>one</item><item>two</item></report>'),
     # unusual but legal prefixes on the right root only (xml..., ns, n0, with dots / dashes / underscores)
     ('<doc><k/></doc>', '<doc xmlns:xmldsig="urn:sig"><k/><xmldsig:Signature i="1"><xmldsig:v>t</xmldsig:v></xmldsig:Signature></doc>'),
     ('<doc><k/></doc>', '<doc xmlns:XMLx="urn:x" xmlns:ns="urn:n"><k/><XMLx:e><ns:f>t</ns:f></XMLx:e></doc>'),
@@ -370,6 +404,36 @@ def pi_stream(focus):
             what = ("diffing a document against an equal document raised %r instead of returning the empty script" if focus == "C03"
                     else "diff raised %r") % ex
             out.append({"what": what, "replay": {"left": a, "right": b, "opts": {}, "finding_key": "processing-instruction-below-root"}})
+    return out
+
+
+ENTITY_DOCS = [
+    ('<!DOCTYPE r [<!ENTITY e "x">]><r><a>1 &e; 2</a>&e;<b/></r>', '<!DOCTYPE r [<!ENTITY e "x">]><r><a>1 &e; 3</a>&e;<c/><b k="&e;"/></r>'),
+    ('<!DOCTYPE doc [<!ENTITY co "ACME"><!ENTITY yr "2026">]><doc><p>&co; &yr;</p><q/></doc>',
+     '<!DOCTYPE doc [<!ENTITY co "ACME"><!ENTITY yr "2026">]><doc><q/><p>&co; and &co; &yr;</p></doc>'),
+]
+
+
+def entity_stream(focus):
+    """documents with an internal DTD subset through the TEXT entry points (oracle only): diff_texts completes, the
+    script applied to the left document gives the right one, and it is the script diff_trees gives for the parsed trees"""
+    from xmldiff import main
+    out = []
+    for a, b in ENTITY_DOCS:
+        rp = {"left": a, "right": b, "opts": {}, "entities": True, "finding_key": None}
+        try:
+            acts = main.diff_texts(a, b)
+            ref = main.diff_trees(etree.fromstring(a), etree.fromstring(b))
+        except Exception as ex:  # noqa
+            out.append({"what": "main.diff_texts raised %r on documents with an internal DTD subset" % ex, "replay": rp})
+            continue
+        L, R = etree.fromstring(a), etree.fromstring(b)
+        found = oracles.check_script(L, R, acts, ()) + oracles.check_patch(L, R, acts, ())
+        if acts != ref:
+            found.append(("C01", "main.diff_texts and main.diff_trees give different scripts: %r vs %r" % (acts, ref)))
+        for p_, m in found:
+            if p_ == focus:
+                out.append({"what": "[documents with general entities] " + m, "replay": rp})
     return out
 
 
@@ -633,6 +697,8 @@ def main(run, focus, extra_corr=None):
         viols += pi_stream(focus)
     if focus in ("C01", "C04", "C05", "C17"):
         viols += deep_stream(focus)
+    if focus in ("C01", "C04", "C05"):
+        viols += entity_stream(focus)
     run.log("correspondence: %d cases, %d disagreements; oracle: %d scripts / %d actions, %d violations of %s" %
             (corr["cases"], len(corr["bad"]), stats["scripts"], stats["actions"], len(viols), focus))
     corrs = [corr] + (extra_corr(run, rng, pinfo) if extra_corr else [])
@@ -665,6 +731,13 @@ def replay(run, path, focus):
     if "left" not in d:
         print("replay names a broken tie, not an input:", d.get("broken")); return 1
     opts = {k: (v if k != "uniqueattrs" else [tuple(x) if isinstance(x, list) else x for x in v]) for k, v in d["opts"].items()}
+    if d.get("entities"):
+        v = [x for x in entity_stream(focus) if x["replay"]["left"] == d["left"]]
+        for x in v:
+            print("violation:", x["what"])
+        if not v:
+            print("property holds on this input")
+        return 1 if v else 0
     if d.get("deep"):
         v = [x for x in deep_stream(focus) if x["replay"]["left"] == d["left"]]
         for x in v:
